@@ -35,7 +35,9 @@ static int serve(const upd_cfg *cfg, zckDL *dl, const char *range, body_cb cb, u
     if(nr == 0) return 0;
     char line[400];
     blob body;
-    const char *bd = cfg->style == 1 ? "=_a+b(c)?." : "3d6b6a416f9b5";
+    /* like real servers, a new boundary for every response */
+    char bd[64];
+    snprintf(bd, sizeof bd, "%s%d", cfg->style == 1 ? "=_a+b(c)?." : "3d6b6a416f9b5", res->nreq);
 #define HDR(...) do { int n_ = snprintf(line, sizeof line, __VA_ARGS__); blob h_ = blob_dup(line, n_); \
                       zck_header_cb((char *)h_.p, 1, h_.n, dl); blob_free(&h_); } while(0)
     HDR("HTTP/1.1 206 Partial Content\r\n");
